@@ -184,4 +184,103 @@ MUTANTS = [
                 raise CycleError("Cycle detected in your input graph.")
             return 0""",
          needs="a cycle in a program with at most three communication ops"),
+    # ---- C04 ------------------------------------------------------------
+    dict(id="c04-getstate-keeps-hash-cache", prop="C04",
+         file="array.py",
+         old="""            cls.__getstate__ = _dataclass_getstate
+            cls.__setstate__ = _dataclass_setstate
+""",
+         new="""            pass
+""",
+         needs="hash() before pickle, unpickle under another hash seed"),
+    dict(id="c04-roll-shift-ignored", prop="C04",
+         file="equality.py",
+         old="""        return (expr1.axis == expr2.axis
+                and expr1.shift == expr2.shift
+                and self.rec(expr1.array, expr2.array)""",
+         new="""        return (expr1.axis == expr2.axis
+                and self.rec(expr1.array, expr2.array)""",
+         needs="two rolls differing only in shift"),
+    dict(id="c04-dict-hash-order-dependent", prop="C04",
+         file="array.py",
+         old="        return hash((frozenset(self._data.items()), self.tags))",
+         new="        return hash((tuple(self._data.items()), self.tags))",
+         needs="two equal DictOfNamedArrays with different insertion order"),
+    dict(id="c04-einsum-redn-descr-ignored", prop="C04",
+         file="equality.py",
+         old="""                and expr1.redn_axis_to_redn_descr == expr2.redn_axis_to_redn_descr
+                )""",
+         new="""                )""",
+         needs="two einsums differing only in a reduction-descriptor tag"),
+    dict(id="c04-eq-cache-keyed-one-sided", prop="C04",
+         file="equality.py",
+         old="        cache_key = id(expr1), id(expr2)",
+         new="        cache_key = id(expr1), id(expr2.__class__)",
+         needs="one node compared against two different nodes of the same "
+               "class within one comparison (sharing)"),
+    # ---- C17 ------------------------------------------------------------
+    dict(id="c17-sent-arrays-plain-frozenset", prop="C17",
+         file="distributed/partition.py",
+         old="""    sent_arrays = FrozenOrderedSet(
+        send_node.data for send_node in lsrdg.local_send_id_to_send_node.values())""",
+         new="""    sent_arrays = frozenset(
+        send_node.data for send_node in lsrdg.local_send_id_to_send_node.values())""",
+         needs="a rank sending two or more different arrays: the generated "
+               "names follow set order"),
+    dict(id="c17-tags-numbered-through-set", prop="C17",
+         file="distributed/tags.py",
+         old="        for sym_tag in flatten(all_tags):",
+         new="        for sym_tag in set(flatten(all_tags)):",
+         needs="two or more symbolic tags"),
+    dict(id="c17-part-outputs-frozenset-order", prop="C17",
+         file="distributed/execute.py",
+         old="                        for var_name in sorted(part.output_names)",
+         new="                        for var_name in part.output_names",
+         needs="a part with two or more outputs, real code generation"),
+    dict(id="c17-python-kwargs-set-order", prop="C17",
+         file="target/python/numpy_like.py",
+         old="                                  for name in sorted(cgen_mapper.arg_names)],",
+         new="                                  for name in cgen_mapper.arg_names],",
+         needs="a program with two or more inputs, Python target"),
+    dict(id="c17-output-order-unkeyed-toposort", prop="C17",
+         file="codegen.py",
+         old="    output_order: list[str] = compute_topological_order(dag, key=lambda x: x)[::-1]",
+         new="    output_order: list[str] = compute_topological_order(dag)[::-1]",
+         expect="either",
+         needs="several independent outputs (dict order decides; may be "
+               "equivalent if the dict order is itself deterministic)"),
+    dict(id="c17-materialized-arrays-id-sorted", prop="C17",
+         file="distributed/partition.py",
+         old="""    stored_arrays = FrozenOrderedSet(stored_ary_to_part_id)""",
+         new="""    stored_arrays = FrozenOrderedSet(
+        sorted(stored_ary_to_part_id, key=id))""",
+         needs="several stored arrays promoted to part outputs: names follow "
+               "object addresses (allocation history)"),
+    # ---- C18 ------------------------------------------------------------
+    dict(id="c18-ndarray-key-bytes-only", prop="C18",
+         file="analysis/__init__.py",
+         old="""        self.rec(key_hash, key.dtype)
+        self.rec(key_hash, key.shape)
+        self.rec(key_hash, key.data.tobytes())""",
+         new="""        self.rec(key_hash, key.data.tobytes())""",
+         needs="wrapped data with identical bytes and another dtype"),
+    dict(id="c18-ndarray-key-via-python-hash", prop="C18",
+         file="analysis/__init__.py",
+         old="""        self.rec(key_hash, key.data.tobytes())""",
+         new="""        self.rec(key_hash, hash(key.data.tobytes()))""",
+         needs="a data wrapper keyed in two interpreters with different hash "
+               "seeds"),
+    dict(id="c18-reduction-op-key-by-hash", prop="C18",
+         file="reductions.py",
+         old="        key_builder.rec(key_hash, type(self))",
+         new="        key_builder.rec(key_hash, hash(type(self).__name__))",
+         needs="a reduction keyed in two interpreters with different hash seeds"),
+    dict(id="c18-axis-key-ignores-tags", prop="C18",
+         file="array.py",
+         old="""class Axis(Taggable):""",
+         new="""class Axis(Taggable):
+    def update_persistent_hash(self, key_hash, key_builder):
+        key_builder.rec(key_hash, type(self).__name__)
+""",
+         needs="two graphs differing only in an axis tag"),
 ]
